@@ -114,7 +114,7 @@ public:
 
   template<typename... Args>
   void emplace(Args&&... args) noexcept(std::is_nothrow_constructible<T, Args...>::value) {
-    new (&value_) T(args...);
+    new (&value_) T(std::forward<Args>(args)...);
     initialized_ = true;
   }
 
